@@ -84,11 +84,15 @@ def _case(draw):
                 node = tdoc.raw(src, '!prev')
                 key = 'moved'
             d['items'] = [kv for kv in d['items'] if kv[0] != key] + [[key, node]]
-    if len(docs) >= 2 and not spell and draw(st.integers(0, 3)) == 0:
+    if len(docs) >= 2 and not spell and draw(st.integers(0, 2)) == 0:
         # a container of an earlier document (tagged or not) is used again, through a yaml alias, under a further key of that document:
         # what later documents write below one place must not show at the other (frame relation)
         di = draw(st.integers(0, len(docs) - 2))
         cands = [n for p_, n in tdoc.walk(docs[di]) if p_ and n['t'] in ('map', 'seq') and n['items'] and not n.get('tag')]
+        later_paths = {tuple(p_) for d_ in docs[di + 1:] for p_, _ in tdoc.walk(d_)}
+        hit = [n for p_, n in tdoc.walk(docs[di]) if p_ and n['t'] in ('map', 'seq') and n['items'] and not n.get('tag') and tuple(p_) in later_paths]
+        if hit and draw(st.integers(0, 3)) != 0:
+            cands = hit         # a container that a later document writes to
         if cands:
             tgt = cands[draw(st.integers(0, len(cands) - 1))]
             tgt['anchor'] = 'n0'
